@@ -102,7 +102,8 @@ def run_cases(ctx, seeds, label):
     nproc = 16
     chunks = [seeds[i::nproc] for i in range(nproc) if seeds[i::nproc]]
     with mp.get_context('fork').Pool(len(chunks)) as pool:
-        results = [r for part in pool.map(_case_worker, chunks) for r in part]
+        from vlib import cov
+        results = [r for part in cov.pmap(ctx, pool, _case_worker, chunks) for r in part]
     order = {s: i for i, s in enumerate(seeds)}
     results.sort(key=lambda r: order[r['seed']])
     good = [r for r in results if 'crash' not in r]
@@ -221,7 +222,59 @@ def silent_peer_problems():
     return problems, cases
 
 
+def refused_connect_problems():
+    """A dial that fails must not be reported as a connection: a CONNECTING TcpConnection whose non-blocking connect was
+    refused learns it either as an ERROR event (poll/epoll pollers) or only as readable/writable with a pending SO_ERROR
+    (select poller).  In both cases onConnected must not fire, the object ends DISCONNECTED and onDisconnected fires
+    once.  Real TcpConnection on the fake socket layer of the C13 harness ("connect/disconnect notifications match the
+    ability to exchange messages", below the transport)."""
+    import pysyncobj.tcp_connection as T
+    from harness import framing as F
+    problems = []
+    cases = 0
+    CS = T.CONNECTION_STATE
+    for how in ('error_event', 'soerr_write', 'soerr_read', 'soerr_read_write'):
+        for redial in (False, True):
+            clock = F.Clock()
+            oracle = F.install(T, clock)
+            try:
+                R = F.Conn(T, clock, oracle, 6, 10 ** 6, reconnect=False)
+                R.disconnect()
+                R.connect()                           # a fresh dial: CONNECTING
+                if redial:
+                    R.disconnect()
+                    R.connect()
+                if R.c.state != CS.CONNECTING:
+                    problems.append('harness: connect() did not leave the object CONNECTING')
+                    continue
+                n_conn = len([e for e in R.log if e[0] == 'connected'])
+                n_disc = len([e for e in R.log if e[0] == 'disc'])
+                clock.now += 1
+                if how == 'error_event':
+                    R.poll(False, False, True, True, [], [])
+                else:
+                    R.poll('read' in how, 'write' in how, False, True, [], [])
+                cases += 1
+                conn2 = len([e for e in R.log if e[0] == 'connected'])
+                disc2 = len([e for e in R.log if e[0] == 'disc'])
+                if conn2 != n_conn:
+                    problems.append('refused connect (%s): onConnected was called for a connection that never existed' % how)
+                if R.c.state != CS.DISCONNECTED:
+                    problems.append('refused connect (%s): the object is %r, not DISCONNECTED' % (how, R.c.state))
+                elif disc2 != n_disc + 1:
+                    problems.append('refused connect (%s): onDisconnected fired %d times' % (how, disc2 - n_disc))
+                if R.raised:
+                    problems.append('exception escaped the connection: %r' % (R.raised[:1],))
+            finally:
+                F.uninstall(T)
+    return problems, cases
+
+
 def correspondence(ctx):
+    rp, n_rp = refused_connect_problems()
+    ctx.monitor['refused_connect_cases'] = n_rp
+    for p_ in rp[:2]:
+        ctx.violation('C14 monitor on the implementation: ' + p_, {'kind': 'refused_connect', 'problem': p_}, found_input=True)
     sp, n_sp = silent_peer_problems()
     ctx.monitor['silent_peer_cases'] = n_sp
     for p_ in sp[:2]:
